@@ -47,16 +47,24 @@ def check_name_capture(chk):
     for fc in gen.format_calls(f):
         if fc.kind != "format" or not fc.template:
             continue
-        txt = re.sub("\x00\\d+\x00", " X ", gen.render_literal_text(fc.template))
+        raw = gen.render_literal_text(fc.template)
+        txt = re.sub("\x00\\d+\x00", " X ", raw)
         if "class " not in txt and "operator()" not in txt and "const noexcept" not in txt:
             continue
-        for ident in ("Byte", "args", "last"):
-            # bare use: not preceded by :: . -> and not a declaration `typename Byte`
-            for m in re.finditer(r"(?<![\w:.>])%s(?![\w])" % ident, txt):
-                pre = txt[max(0, m.start() - 12):m.start()]
-                if re.search(r"typename\s*$|typename\.\.\.\s*$|auto\s*$", pre):
-                    continue
-                exposed.setdefault(ident, fc.where)
+        # (1) `Byte` is the template parameter of every generated class: a member *declared* with that name in the
+        #     class is ill-formed ([temp.local]) whatever the uses look like
+        for m in re.finditer(r"(?<![\w:.>])Byte(?![\w])", txt):
+            pre = txt[max(0, m.start() - 12):m.start()]
+            if re.search(r"typename\s*$|typename\.\.\.\s*$", pre):
+                continue
+            exposed.setdefault("Byte", fc.where)
+        # (2) a local variable or parameter captures a schema-named member only where the template calls that member
+        #     *unqualified* (a placeholder followed by `(` without this-> / . / :: in front) in the same function
+        unqualified_member_call = re.search(r"(?<![\w:.>])(?<!->)\x00\d+\x00\s*\(", raw) is not None
+        if unqualified_member_call:
+            for ident in ("args", "last"):
+                if re.search(r"(\.\.\.\s*%s\b|auto\s+%s\s*=|&&\s*%s\b)" % (ident, ident, ident), txt):
+                    exposed.setdefault(ident, fc.where)
     # which of them do the validators reject?
     rejected = set()
     for fn in gen.sbeppc_functions(f):
@@ -92,4 +100,8 @@ def check_name_capture(chk):
                           "generated setters call `v.value()` on the schema type's class; a <type name='value'> yields "
                           "`class value : required_base<..., value>` in which `value` names the constructor, and no validator "
                           "rejects that name: accepted schema, header does not compile")
-    chk.floor("capture candidates", len(exposed), 2)
+    for ident in ("args", "last"):
+        if ident not in exposed:
+            chk.ok("G-NAME.capture", "capture:" + ident, {"identifier": ident, "note": "no template calls a schema-named member unqualified "
+                                                                                  "in a function that declares `%s`" % ident})
+    chk.floor("capture candidates", len(exposed), 1)
